@@ -31,6 +31,8 @@ CORPUS = {
     "nul-and-controls": "let a\x00 = num;\x0b\nres / on get -> <a>;\x7f\n",
     "optional-parts-in-another-order": "let t = put : <str> { 'q str } -> <>;\nres /a on get { 'p num } : <{}> { 'again num } -> <>;\nlet c = <{}, status=200>;\nres /b?{ 'x num }/{ 'y num } on get -> <>;\nlet d = 'p! ? num;\n",
     "annotations-followed-by-blank-lines": "# summary: \"s\"\n\n\nlet a = num;\n# description: \"d\"\r\n\r\n\r\nlet b = str;\n// comment\n\n\n# tags: [x]\n\nres / on get -> <a>;\n\n\n",
+    "many-lexical-errors-in-a-row": "let a = num;\n" + "§" * 300 + "\nlet b = str;\nres / on get -> <a>;\n",
+    "many-lexical-errors-spread-out": "".join("let v%d = € num;\n" % i for i in range(120)) + "res / on get -> <v1>;\n",
     "optional-parts-left-out": 'use "m.oal" as m;\nlet a = m.;\nlet b = { \'x m. , \'y str };\nlet c = b.;\nres /p? on get -> <>;\nres / on get : -> <>;\nlet d = [ ] ;\nlet e = a :: ;\n',
 }
 
@@ -80,6 +82,15 @@ def more_texts():
                     out["pool-%s-%s" % (k.replace("/", "-"), fn.replace("/", "-"))] = text
     except Exception:
         pass
+    # arbitrary Unicode: texts drawn (VERIF_SEED) from the language's own tokens mixed with characters of every UTF-8 width,
+    # controls, line separators and characters the lexer does not know
+    import random
+    rnd = random.Random(int(os.environ.get("VERIF_SEED", "1")) * 7919 + 11)
+    alphabet = ["let ", "res ", "use ", "on ", "get", "put", " -> ", " :: ", " : ", "<", ">", "{", "}", "[", "]", "(", ")", ";", ",", "=", "|", "&", "~", "?", "!", "/", "/seg",
+                "'p ", "@r ", "name", "q.v", "num", "str", "200", "4XX", "12.5", "\"s\"", "`a: 1`", "# d: x\n", "// c\n", "/* b */", " ", "\n", "\r\n", "\t",
+                "§", "€", "é", "中", "\U0001F600", "\u00a0", "\u2028", "\ufeff", "\x00", "\x7f", "\"", "'", "`", "#", "\\", "$", "%", "^", "*", "+", "9" * 25]
+    for i in range(60):
+        out["unicode-%02d" % i] = "".join(rnd.choice(alphabet) for _ in range(rnd.randint(1, 60)))
     try:
         import props.c04 as c04
         for k, text in c04.mutation_texts().items():
@@ -204,6 +215,23 @@ def check():
                 idx_ok = False
     structural("tokenize: the lexer runs over the caller's text itself, so its ranges are offsets into that text", lex_ok and n_lex > 0)
     structural("tokenize: token texts are sliced from the caller's text itself", idx_ok)
+    # ... and the loop ends where the text ends: tokenize leaves its loop only when the lexer has nothing more to give
+    # (otherwise the rest of the text is covered by no token and no error)
+    n_exit = 0
+    for p in outs:
+        if p.kind != "return":
+            continue
+        li = [i for i, e in enumerate(p.events) if e[0] == "loop"]
+        if not li:
+            continue
+        nx = [e for e in p.events[li[-1]:] if e[0] == "call" and e[1].endswith("Iterator::next")]
+        n_exit += 1
+        if len(nx) != 1:
+            structural("tokenize: leaves its loop right after asking the lexer once", False, "tokenize: a path leaves the token loop after %d lexer steps" % len(nx))
+            continue
+        L.expect_unsat("tokenize: the token loop is left only when the lexer is exhausted", S.pc(p.pc) + [S.disc(S.v(nx[0][3])) != 0], on_sat)
+    if n_exit == 0:
+        o.inconc("tokenize: no path leaves the token loop")
     if n_ok == 0 or n_err == 0:
         o.inconc("tokenize: no token / no error iteration found (%d/%d)" % (n_ok, n_err))
     o.extra["tokenize_paths"] = {"token": n_ok, "error": n_err}
